@@ -26,7 +26,7 @@ func init() {
 		Assumptions: []string{
 			"a hint that names the wrong fraction for a stored document is a client error: only position, ID, no-error and liveness are judged for such entries",
 		},
-		Batches: tiered(64, 640),
+		Batches: tiered(192, 3200),
 		Run:     runC04,
 		Timeout: timeoutFor(8*time.Minute, 40*time.Minute),
 	})
